@@ -26,14 +26,14 @@ def hasPrefixNoCase (name line : List Byte) : Bool :=
 def headerBlock (ls : List (List Byte)) : List (List Byte) := ls.takeWhile (fun l => !l.isEmpty)
 
 /-- the content of a data line: what is left when the dot added for transparency is removed -/
-def lineContent (l : List Byte) : List Byte :=
+def dataLineContent (l : List Byte) : List Byte :=
   match l with
   | 46 :: rest => rest
   | _ => l
 
 /-- a field is present when the content of a line of the header block starts with its name -/
 def fieldPresent (name : List Byte) (ls : List (List Byte)) : Bool :=
-  (headerBlock ls).any fun l => hasPrefixNoCase name (lineContent l)
+  (headerBlock ls).any fun l => hasPrefixNoCase name (dataLineContent l)
 
 def nameDate : List Byte := [68, 97, 116, 101, 58]
 def nameFrom : List Byte := [70, 114, 111, 109, 58]
